@@ -10,6 +10,7 @@ import (
 	"time"
 
 	"github.com/protolambda/zrnt/eth2/beacon/common"
+	"github.com/protolambda/zrnt/eth2/beacon/phase0"
 	"github.com/protolambda/zrnt/eth2/gossipval"
 	"github.com/protolambda/zrnt/eth2/util/hashing"
 	zmath "github.com/protolambda/zrnt/eth2/util/math"
@@ -87,7 +88,35 @@ func gen(o hreg.Opts, w *bufio.Writer) error {
 	}
 	in := interesting()
 	small := []uint64{1, 2, 3, 4, 6, 8, 12, 32, 64, 128, 2048, 65536, 1 << 32, 1<<63 - 1, 1 << 63, maxU}
+	// the float-estimate square root: every perfect square of the table and its neighbours, k^2-1 for k whose
+	// square is not exactly representable in a float64 (k >= 2^27), top of the range
+	for k := uint(0); k <= 32; k++ {
+		r := uint64(1) << k
+		for _, d := range []uint64{0, 1, 2, 3} {
+			for _, q := range []uint64{r - d, r + d} {
+				sq := q * q
+				if q <= 4294967295 {
+					line("isqrtp", "%d", sq)
+					line("isqrtp", "%d", sq-1)
+					line("isqrtp", "%d", sq+1)
+					line("isqrtp", "%d", sq+2*q) // (q+1)^2 - 1
+				}
+			}
+		}
+	}
+	// attestation subnets: guard boundary committeeIndex = committeesPerSlot*SLOTS_PER_EPOCH (-1, +0, +1), wrapping products
+	for _, spe := range []uint64{0, 1, 6, 8, 32, 48, 1 << 32, maxU} {
+		for _, cps := range []uint64{0, 1, 3, 4, 64, 65, 1 << 31, 1 << 32, maxU / 32, maxU} {
+			lim := cps * spe
+			for _, ci := range []uint64{0, 1, 63, 64, lim - 1, lim, lim + 1, maxU} {
+				for _, slot := range []uint64{0, 1, spe - 1, spe, 2*spe + 5, maxU} {
+					line("subnet", "%d %d %d %d", spe, cps, slot, ci)
+				}
+			}
+		}
+	}
 	for _, v := range in {
+		line("isqrtp", "%d", v)
 		line("isqrt", "%d", v)
 		line("ispow2", "%d", v)
 		line("nextpow2", "%d", v)
@@ -125,7 +154,19 @@ func gen(o hreg.Opts, w *bufio.Writer) error {
 	}
 	n := o.Pick(20000, 1000000)
 	for i := 0; i < n; i++ {
-		switch i % 14 {
+		switch i % 16 {
+		case 14:
+			if i%32 == 14 {
+				// k^2 - 1 and k^2 for large k: float64(k^2-1) rounds up to k^2 when k >= 2^27
+				k := uint64(1)<<27 + rng.Uint64()%((uint64(1)<<32)-(uint64(1)<<27))
+				line("isqrtp", "%d", k*k-uint64(rng.Intn(2)))
+			} else {
+				line("isqrtp", "%d", rnd64(rng))
+			}
+		case 15:
+			spe, cps := 1+uint64(rng.Intn(64)), uint64(rng.Intn(70))
+			ci := uint64(rng.Intn(int(cps*spe) + 3))
+			line("subnet", "%d %d %d %d", spe, cps, rnd64(rng), ci)
 		case 0:
 			line("isqrt", "%d", rnd64(rng))
 		case 1:
@@ -266,6 +307,16 @@ func exec(o hreg.Opts, sc *bufio.Scanner, w *bufio.Writer) error {
 			switch f[0] {
 			case "isqrt":
 				return okU(zmath.IntegerSquareroot(u(f[1])))
+			case "isqrtp":
+				return okU(zmath.IntegerSquareRootPrysm(u(f[1])))
+			case "subnet":
+				spec := &common.Spec{}
+				spec.SLOTS_PER_EPOCH = common.Slot(u(f[1]))
+				v, err := phase0.ComputeSubnetForAttestation(spec, u(f[2]), common.Slot(u(f[3])), common.CommitteeIndex(u(f[4])))
+				if err != nil {
+					return "err"
+				}
+				return okU(v)
 			case "ispow2":
 				return "ok " + hreg.B2S(zmath.IsPowerOfTwo(u(f[1])))
 			case "nextpow2":
